@@ -3,6 +3,26 @@
 import json, os, glob, re
 ROOT = '/verif/seeded'
 NEEDS = {
+ 'C01b': ("internal/ledger/account_cache.go add: deleted keys are evicted from the cache instead of cached as tombstones (the agent chose the same change as C10/C13)",
+          "a committed key deleted in block n, touched by a reader (or the next block) between flush and commit of n, then re-set to its old value in n+1; at node level additionally a comparison between replicas with different persist timing"),
+ 'C02b': ("internal/router/interchain.go classify: accepted transactions are no longer attached to a chain's wrapper when a timeout or multi-tx wrapper already exists for it",
+          "a block that carries, for the same chain, an accepted IBTP and a timeout or multi-transaction notification"),
+ 'C03b': ("pkg/proof/proof_pool.go verifyMultiSign: the validator set of a registered BitXHub is cached and never invalidated on a trust-root update",
+          "a relay chain whose trust root is replaced through governance after an IBTP of it was verified, then an IBTP signed only by removed validators"),
+ 'C04b': ("internal/executor/handle.go setTimeoutList: the invalid/failed filter applies to requests only, so a rejected receipt removes the request from its timeout list",
+          "a request with a timeout, a rejected receipt for it before the timeout height, then the timeout height"),
+ 'C05b': ("internal/executor/contracts/interchain.go addToMultiTxNotifyMap: the source-side notification replaces the ids already stored for that chain in the block",
+          "two one-to-many groups of the same source chain failing (or a group's source being another group's destination) in one block"),
+ 'C06b': ("internal/executor/contracts/transaction_manager.go BeginMultiTXs: a begin-failed later child removes the group from the timeout list of the wrong height",
+          "a group with a timeout whose later child begins (failed) in a later block than the first; the chain then reaches the group's expiry"),
+ 'C07b': ("internal/executor/handle.go setTimeoutList: same change as C04b (two agents converged)",
+          "a FAILED transaction carrying a receipt IBTP for a pending request with a timeout"),
+ 'C08b': ("internal/executor/contracts/interchain.go notifySrcDst: a nil wrapper is stored for the destination of a failed child; applyTx dereferences it outside the VM's recover",
+          "a one-to-many group still in BEGIN and an accepted failure receipt for one child whose destination is local"),
+ 'C09b': ("internal/executor/handle.go processExecuteEvent: the parent hash is read before the executor's rollback",
+          "a commit event at or below the executor's height (rollback + re-execution in the same call)"),
+ 'C10b': ("internal/ledger/state_accessor.go GetAccount: dirtyCode not initialised on the cache-hit path, so a contract account that is only read enters the journal and the root",
+          "an account with code loaded through the account cache in a block that does not change it, compared with a history that loads it from the database (reopen) or does not read it"),
  'C01': ("internal/executor/contracts/service_manager.go: the service event is posted before the pause/clear of a chain's services, so the in-memory service cache of a never-restarted node keeps the service as available",
          "an appchain frozen/logged out through governance, a later IBTP from/to one of its services, and a comparison between a replica that never restarted and one reopened in between"),
  'C02': ("internal/executor/contracts/interchain.go: index check skipped when the destination is unavailable",
